@@ -299,9 +299,32 @@ def run(F, rep, tier):
             key = "%s:%s@%d" % (n.split("::")[-1], c["method"], nlocks)
             if par.get("k") == "MethodCall" and par.get("method") in ("unwrap", "expect", "unwrap_unchecked") and par.get("recv") is c:
                 rep.violation(r4, key, "the result of %s() is unwrapped: once the lock is poisoned every later request panics" % c["method"], "%s:%s" % (h["file"], c.get("l")))
+            elif c["method"].startswith("try_"):
+                rep.violation(r4, key, "%s() does not wait for the lock: a request that arrives while another one holds the workspace is answered with an error and its operation is "
+                              "not executed (the sequence of workspace operations differs from the sequence of requests)" % c["method"], "%s:%s" % (h["file"], c.get("l")))
             else:
                 rep.ok(r4, key, "matched (%s)" % par.get("k"))
     rep.floor(r4, "lock acquisitions in the server", nlocks, 7)
+    # R18.3 also outside the route handlers: error handlers, default services (any `.body(..)` of an HTTP response built in the server crate)
+    handled = {hn for n in regs for hn in F.hir if hn.startswith(n + "::")}
+    for n, h in sorted(F.hir.items()):
+        if not h["_crate"].startswith("dmntk_server") or n in handled:
+            continue
+        bodies = [c for c, _ in find_hir(h["body"], lambda x: x.get("k") == "MethodCall" and x.get("method") == "body" and "Response" in (x.get("callee") or ""))]
+        if not bodies:
+            continue
+        t = Taint(F, h, escapers)
+        henv = {}
+        for st, _ in find_hir(h["body"], lambda x: x.get("k") == "LetStmt" and "e" in x and x.get("p", {}).get("k") == "Bind"):
+            t.bad = []
+            henv[st["p"]["name"]] = t.safe(st["e"], henv)
+        for i, b in enumerate(bodies):
+            t.bad = []
+            key = "body:%s:%d" % (n.split("::")[-1], i)
+            if t.safe(b["args"][0], henv):
+                rep.ok(r3, key, "serde / jsonify text only")
+            else:
+                rep.violation(r3, key, "a response body built in %s contains raw text: %s" % (n.split("::")[-1], t.bad[0][1] if t.bad else "unrecognised expression"), "%s:%s" % (h["file"], b.get("l")))
     tck_tag_rule(F, rep)
     tck_text_rule(F, rep)
     # premise of "the endpoints behave as the same sequence of workspace operations": the operations themselves keep the workspace consistent (C17)
@@ -404,9 +427,28 @@ def tck_tag_rule(F, rep):
                               % (k, t, sorted(produced.get(t, [])), reader[t].split("::")[-1], k), "server/src/dto.rs")
             else:
                 rep.ok(rid, key, "%s <-> %s via %s" % (k, t, reader[t].split("::")[-1]))
+    xsd_number_rule(F, rep, rid, reader)
     for k, tags in sorted(by_kind.items()):
         if len(tags) > 1:
             rep.violation(rid, "tag:agree:%s" % k, "the two writers disagree on the tag of kind %s: %s" % (k, sorted(tags)), "server/src/dto.rs")
+
+
+def xsd_number_rule(F, rep, rid, reader):
+    """the numeric readers turn the DTO text into a number with the number type's own parser: a detour through i64 / f64 narrows the 34-digit range"""
+    for t, fn in sorted(reader.items()):
+        if not fn.endswith(("try_from_xsd_integer", "try_from_xsd_decimal", "try_from_xsd_double")):
+            continue
+        h = F.hir.get(fn)
+        if h is None:
+            continue
+        parses = [c for c, _ in find_hir(h["body"], lambda x: x.get("k") in ("MethodCall", "Call") and ((x.get("method") == "parse" and "str" in (x.get("callee") or "")) or (x.get("callee") or "").endswith("FromStr>::from_str") or (x.get("callee") or "").endswith("::from_str")))]
+        tys = [F.ty(h, c["t"]) for c in parses if c.get("t") is not None]
+        key = "reader-number:%s" % t
+        if tys and all("FeelNumber" in ty for ty in tys):
+            rep.ok(rid, key, "parsed as FeelNumber")
+        else:
+            rep.violation(rid, key, "%s parses the text as %s instead of as a FEEL number: values beyond that type's range (34-digit decimals) no longer round-trip" % (fn.split("::")[-1], tys or "?"),
+                          "%s:%s" % (h["file"], h["line"]))
 
 
 def lit_strings(p, out=None):
